@@ -128,7 +128,7 @@ pub open spec fn policy_failure(p: TrampolineRoutingPolicy) -> Seq<u8> {
       ps_inv(*old(payment_state), *old(g))
 //@ requires#held_total_fits_u64
       sum_held(old(g).held) + req.htlc.amount_msat as int <= u64::MAX as int
-//@ ensures#inv [C06,C07,C03]
+//@ ensures#inv [C06,C07,C03,C04,C11]
       ps_inv(*final(payment_state), *final(g))
 //@ ensures#relative_expiry_below_policy_rejects_the_set [C04,C12,C07]
       (req.htlc.cltv_expiry_relative < self.params.routing_policy.cltv_expiry_delta as i64) ==>
@@ -147,7 +147,7 @@ pub open spec fn policy_failure(p: TrampolineRoutingPolicy) -> Seq<u8> {
            && final(g).fail_q[0]->failure_message@ == policy_failure(self.params.routing_policy))
 //@ ensures#only_fail_values_requested [C02]
       forall|i: int| 0 <= i < final(g).fail_q.len() ==> (#[trigger] final(g).fail_q[i]) is Fail
-//@ ensures#htlc_is_held_or_answered_at_once [C06,C07,C03]
+//@ ensures#htlc_is_held_or_answered_at_once [C06,C07,C03,C01,C02]
       (old(payment_state).resolution is Some ==> sender.fate() == old(payment_state).resolution)
       && (old(payment_state).resolution is None ==>
             final(g).held == old(g).held.push(HeldAbs { amount: req.htlc.amount_msat, expiry: req.htlc.cltv_expiry }))
@@ -182,6 +182,6 @@ pub open spec fn policy_failure(p: TrampolineRoutingPolicy) -> Seq<u8> {
       (r is Continue && !final(g).via_listener) ==> continue_untouched(*req, r)
 //@ closure 0
 //@ creturns p: PaymentState
-//@ ensures#fresh_entry_is_blank_and_for_this_trampoline [C06,C03,C07]
+//@ ensures#fresh_entry_is_blank_and_for_this_trampoline [C06,C03,C07,C01,C10,C04]
       ps_inv(p, blank_g()) && p.trampoline == trampoline
 //@ end
